@@ -207,7 +207,9 @@ def replay_row(i, j, inputs):
         return True, {'current': 'reports unimplemented', 'reference': 'completes'}
     d = {f: (a[1]['regs'][f], b[1]['regs'].get(f)) for f in a[1]['regs'] if a[1]['regs'][f] != b[1]['regs'].get(f)}
     dm = {ad: (a[1]['dmem'].get(ad), b[1]['dmem'].get(ad)) for ad in set(a[1]['dmem']) | set(b[1]['dmem']) if a[1]['dmem'].get(ad) != b[1]['dmem'].get(ad)}
-    return bool(d or dm), {'regs (current, reference)': d, 'dmem (current, reference)': dm}
+    pa, pb = a[1].get('pmem', {}), b[1].get('pmem', {})
+    pm = {ad: (pa.get(ad), pb.get(ad)) for ad in set(pa) | set(pb) if pa.get(ad) != pb.get(ad)}
+    return bool(d or dm or pm), {'regs (current, reference)': d, 'dmem (current, reference)': dm, 'program memory (current, reference)': pm}
 
 
 def match_rows(C, Rf):
